@@ -348,7 +348,7 @@ def fit_case(ctx, rng, idx):
 
     # ---- trace monitor: wrap the two update methods of the real class ---------------------------------
     trace = {"w": 0, "u": 0, "bad": None}
-    orig_w, orig_u = mm.HyMMSBM._w_update, mm.HyMMSBM._u_update
+    orig_w, orig_u = getattr(mm.HyMMSBM, "_w_update", None), getattr(mm.HyMMSBM, "_u_update", None)  # private: watched when present
 
     def judge_iter(self, name, val):
         trace[name] += 1
@@ -373,15 +373,24 @@ def fit_case(ctx, rng, idx):
 
     def w_wrapped(self, *a, **k):
         v = orig_w(self, *a, **k)
-        judge_iter(self, "w", v)
+        try:
+            judge_iter(self, "w", v)
+        except Exception as e:  # the monitor must not change what fit() does
+            ctx.note("trace-monitor-error:" + type(e).__name__)
         return v
 
     def u_wrapped(self, *a, **k):
         v = orig_u(self, *a, **k)
-        judge_iter(self, "u", v)
+        try:
+            judge_iter(self, "u", v)
+        except Exception as e:
+            ctx.note("trace-monitor-error:" + type(e).__name__)
         return v
 
-    mm.HyMMSBM._w_update, mm.HyMMSBM._u_update = w_wrapped, u_wrapped
+    if orig_w is not None and orig_u is not None:
+        mm.HyMMSBM._w_update, mm.HyMMSBM._u_update = w_wrapped, u_wrapped
+    else:
+        ctx.note("probe-unavailable:_w_update/_u_update")
     seq = []
     try:
         for n_iter in range(1, T + 1):
@@ -419,7 +428,8 @@ def fit_case(ctx, rng, idx):
                       "C15:fit:max-hyperedge-size-detected-below-data", lambda: wit((m.max_hye_size, dmax)))
             seq.append((n_iter, m.u.copy(), m.w.copy(), m.max_hye_size))
     finally:
-        mm.HyMMSBM._w_update, mm.HyMMSBM._u_update = orig_w, orig_u
+        if orig_w is not None and orig_u is not None:
+            mm.HyMMSBM._w_update, mm.HyMMSBM._u_update = orig_w, orig_u
     ctx.event("update-hook:w", trace["w"])
     ctx.event("update-hook:u", trace["u"])
     expected_hooks = sum(range(1, T + 1))
